@@ -14,6 +14,8 @@ pub fn expressions(tier: Tier) -> Vec<String> {
         "", "a b", "`{`", "\"unterminated", "a.\n b", "'\n'", "type(@)", "@ == @", "`null`", "`\"\"`", "b", "'<\\'>'", "`\"\\u0000\\u2028\"`",
         "'x\r\ny'", "join('\r\n', keys(@))", "'\r'", "a\r\n.\r\nb",
         // Unicode white space that is not JMESPath white space, trailing and leading (an expression file is taken as it is)
+        // results that are expression references (printed as JSON strings; not strings for --unquoted)
+        "&a", "&@", "a && &a", "[&a]",
         "@\u{a0}", "a\u{2028}", "a\u{b}", "a \u{3000}", "a\u{85}\n", "\u{a0}a", "a\u{c}", "'x\n'", "join('', ['l1\n', 'l2\n'])",
     ]
     .iter()
